@@ -375,5 +375,15 @@ def check(tier):
 
 
 def replay(path):
-    print(json.load(open(path))["case"])
-    return 0
+    case = json.load(open(path))["case"]
+    print(case)
+    with e3.Scratch("c17r") as wd:
+        if "markers" in case:
+            o = _synthetic((frozenset(case["markers"]), case["deep"], case["junk"], case["trailer"], wd))
+        elif "first" in case:
+            o = _pair((case["first"], case["second"], case.get("fault_at"), wd, case.get("output_in_subdirectory", False)))
+        else:
+            o = _real((wd,))
+    for sig, lst in o.viol.items():
+        print("REPRODUCED", sig, lst[0][2][:300])
+    return 1 if o.viol else 0
